@@ -103,7 +103,7 @@ class DilutionPlan:
         # transfer from stock until the volume is too low
         for c in range(C):
             vtransfer = numpy.round(vmax_arr[c] * ideal_targets[:, c] / stock, 0)
-            if all(vtransfer >= min_transfer):
+            if all(vtransfer >= min_transfer) and all(vtransfer <= vmax_arr[c]):
                 instructions.append((c, 0, "stock", vtransfer))
                 # compute the actually achieved target concentration
                 actual_targets.append(vtransfer / vmax_arr[c] * stock)
@@ -117,7 +117,7 @@ class DilutionPlan:
                 _, src_df, _, _ = instructions[src_c]
                 vtransfer = numpy.ceil(vmax_arr[c] * ideal_targets[:, c] / actual_targets[src_c])
                 # take the leftmost column (least dilution steps) where the minimal transfer volume is exceeded
-                if all(vtransfer >= min_transfer):
+                if all(vtransfer >= min_transfer) and all(vtransfer <= vmax_arr[c]):
                     instructions.append(
                         # increment the dilution step counter
                         (c, src_df + 1, src_c, vtransfer)
